@@ -234,8 +234,17 @@ class DefGen:
             crits = [cmp("APID", "==", a)]
             if rng.random() < 0.3:
                 crits.append(cmp("TYPE", "==", 0))
-            if rng.random() < 0.15:
-                crits = [{"k": "and", "conds": [cond("APID", "==", a), cond("VERSION", "<", 4)], "groups": []}]
+            if rng.random() < 0.3:
+                shape = rng.randrange(3)
+                if shape == 0:
+                    crits = [{"k": "and", "conds": [cond("APID", "==", a), cond("VERSION", "<", 4)], "groups": []}]
+                elif shape == 1:      # AND with a nested OR group
+                    crits = [{"k": "and", "conds": [cond("APID", "==", a)],
+                              "groups": [{"k": "or", "conds": [cond("VERSION", "<", 4), cond("TYPE", "==", 1)], "groups": []}]}]
+                else:                 # OR of an AND group and a condition that never holds
+                    crits = [{"k": "or", "conds": [cond("APID", "==", 2000 + a)],
+                              "groups": [{"k": "and", "conds": [cond("APID", "==", a), cond("VERSION", "<", 4)],
+                                          "groups": [{"k": "or", "conds": [cond("TYPE", "==", 0), cond("SHF", "==", 1)], "groups": []}]}]}]
             has_kids = rng.random() < 0.5 and refs
             xdoc.add_container(self.d, cname, entries, base="ROOT", crit_list=crits, abstract=bool(has_kids and rng.random() < 0.5))
             self.paths.append(([cname], {"APID": a, "TYPE": 0, "VERSION": rng.randrange(4)}))
